@@ -35,6 +35,12 @@ def make_error(kind: str) -> BaseException:
         return SimTimeout("timed out (injected)")
     if kind == "reset":
         return SimReset(errno.ECONNRESET, "Connection reset by peer (injected)")
+    if kind == "incomplete_read":
+        import http.client
+
+        e = http.client.IncompleteRead(b"", 1024)  # an HTTPException: neither OSError nor ValueError
+        e.injected = True  # type: ignore[attr-defined]
+        return e
     raise ValueError(kind)
 
 
